@@ -236,6 +236,41 @@ func runThresholdDecisions(cs CaseSpec) *CaseResult {
 				res.count("threshold_decisions_accepting", 1)
 			}
 			res.digest("dec", n, k)
+			// the same decision taken through the signature pool, on a node that knows
+			// a second, larger validator-set for later rounds: k signatures by members
+			// of the block's set plus valid signatures by two keys that only belong to
+			// the later set must not make the block trusted unless k alone suffices
+			if n <= 10 {
+				store2 := hg.NewInmemStore(100)
+				h2 := hg.NewHashgraph(store2, hg.DummyInternalCommitCallback, quietLogger())
+				h2.Init(peerSet)
+				later := append([]*peers.Peer{}, clonePeers(ps)...)
+				extraKeys := []*SimKey{{detKey(cs.Seed, "thr-later", n*100)}, {detKey(cs.Seed, "thr-later", n*100+1)}}
+				for i, ek := range extraKeys {
+					later = append(later, mkPeer(ek.K, fmt.Sprintf("late%d", i), fmt.Sprintf("late%d", i)))
+				}
+				store2.SetPeerSet(10, peers.NewPeerSet(later))
+				b2 := hg.NewBlock(0, 1, []byte("framehash"), ps, [][]byte{[]byte("tx")}, nil, 0)
+				store2.SetBlock(b2)
+				signers := append([]*SimKey{}, ks[:k]...)
+				signers = append(signers, extraKeys...)
+				for _, sk := range signers {
+					sig, err := b2.Sign(sk.K)
+					if err != nil {
+						panic(err)
+					}
+					h2.PendingSignatures.Add(sig)
+				}
+				h2.ProcessSigPool()
+				res.count("threshold_decisions", 1)
+				if h2.AnchorBlock != nil && !enough {
+					got, _ := store2.GetBlock(0)
+					res.violate("C19", "C19:anchor-trusted-on-signatures-of-non-validators",
+						fmt.Sprintf("a block of a round with %d validators became the trusted anchor with %d signature(s) of its validators plus 2 signatures of keys that only belong to a later validator-set (%d signatures recorded)", n, k, len(got.Signatures)),
+						map[string]interface{}{"n": n, "k": k})
+					return res
+				}
+			}
 		}
 	}
 	res.Sample = map[string]interface{}{"kind": "acceptance decisions", "n_up_to": maxN, "all_k": true}
